@@ -474,6 +474,25 @@ struct C18 : Scenario {
 			if (m.level >= 1 && rng.chance(1, 3)) { ExtHdr e; e.type = 0x52; e.data = hostile_str(rng, 8, true); m.ext.push_back(e); }
 			p.members.push_back(m);
 		}
+		if (rng.chance(1, 5) && !p.members.empty()) {
+			// an earlier file whose (hostile) name is then used as a directory component by a later directory or symlink
+			// entry: the tool's "parent is not a directory" diagnostics carry the name
+			Member f = p.members[0];
+			if (f.kind == 'f' && !f.gname.empty() && f.gpath.empty()) {
+				Member d;
+				d.level = (int) rng.below(3);
+				d.os = 'U';
+				d.method = "-lhd-";
+				bool link = rng.chance(1, 2);
+				d.kind = link ? 'l' : 'd';
+				std::string path = f.gname + "/", name = link ? "lnk" : "";
+				if (!link) path += "sub/";
+				d.gpath = path; d.gname = name; d.gtarget = link ? "target" : "";
+				encode_names(d, path, link ? name + "|target" : name);
+				encode_unix_meta(d, link ? 0120777 : 040755, 1000, 1000, 1000000000, 0, false);
+				p.members.push_back(d);
+			}
+		}
 		static const char *cmds[] = {"l", "lv", "v", "vv", "t", "xf", "xn", "xq0", "xq1", "xq2", "xfi", "p", "pq", "ef", "tq1", "pn", "xfv", "tv", "xfw=out", "vq1"};
 		p.argv = {"lha", cmds[rng.below(20)], "/w/a.lzh"};
 		if (rng.chance(1, 5)) {
